@@ -8,7 +8,7 @@ rows = []
 for sid in ids:
     d = os.path.join(HERE, "seeded", sid)
     meta = json.load(open(os.path.join(d, "meta.json")))
-    r = subprocess.run([sys.executable, os.path.join(HERE, "tools", "try_seeded.py"), os.path.join(d, "patch.diff"), "--props", "all"],
+    r = subprocess.run([sys.executable, os.path.join(HERE, "tools", "try_seeded.py"), os.path.join(d, "patch.diff"), "--props", "all", "--no-restore"],
                        capture_output=True, text=True)
     if r.returncode != 0:
         print(sid, "FAILED:", (r.stdout + r.stderr)[-400:])
